@@ -22,11 +22,15 @@ META = {
     "dependency map (chunked_eq_whole_nn); from the ARGUMENTS of xr_reproject — nodata attribute, src_nodata=, dst_nodata=, every "
     "accepted form of chunks= (None / pair / tuple of tuples) — dask-backed equals numpy-backed (xr_entry_chunked_eq_whole), on "
     "the linear path with NO named hypothesis left (xr_entry_linear_total: C04 tilings, C12 linear dependencies and their "
-    "validity composed in; the default chunks= never fails: xrDask_default_ok; N-d arrays with the spatial axes anywhere: xr_entry_nd_linear); every pixel that no source pixel reaches holds "
+    "validity composed in; the default chunks= never fails: xrDask_default_ok; N-d arrays with the spatial axes anywhere: xr_entry_nd_linear; with the SNAPPED dependency transform that _check_linear "
+    "really uses, under the drift bound |a-a'|*dstW+|c-c'| <= |a'|/4 per axis: xr_entry_linear_snapped — K17 / K23 are exactly "
+    "the points outside the bound); every pixel that no source pixel reaches holds "
     "resolve_fill(dst_nodata, src_nodata, dtype) in task chunks and constant chunks alike for ANY dependency "
     "map (fill_uniform, disjoint_all_fill), and for integer rasters with ANY caller nodata (fractional, negative, out of range) "
     "the constant chunks hold exactly what the warp writes (const_fill_eq_warp_fill; as found they did not: "
-    "const_fill_as_found_cex, fixed in /repo); every schedule that respects the task dependencies yields the same "
+    "const_fill_as_found_cex, fixed in /repo), and a nodata the integer type cannot hold is refused alike by both back-ends, "
+    "the int8 -> int16 -> int8 detour included (xr_fill_agree, code of fix3-C13; as found int8_wrap_as_found_cex / "
+    "unrepresentable_as_found_cex); every schedule that respects the task dependencies yields the same "
     "blocks (order_independent, topo_order_runs).  The model is tied to the code on every run: exact stream "
     "(dyadic placements, all dtypes/nodata settings, 1-pixel and ragged chunks, mirrored, scaled, rotated, "
     "disjoint, injected dependency maps, recorded execution orders; the public entry point with every argument form incl. "
@@ -52,8 +56,11 @@ META = {
     "anchor files): GDAL's approximate transformer and every non-nearest resampling kernel (oracle: fill claim "
     "only); IEEE rounding (non-dyadic placements are oracle-only: lindeps would need a float-rounding model of "
     "affine multiplication/inversion); which exception class rejects a negative tile size / non-adding chunks (ValueError or "
-    "IndexError, one error kind in the model); nodata conversion for float / complex dtypes (float32 rounding of the double) and "
-    "the int8 -> int16 -> int8 wrap-around of an out-of-range int8 nodata; a destination chunk of zero area wired to sources is "
+    "IndexError, one error kind in the model); nodata conversion for float / complex dtypes is modelled as round-to-nearest-even "
+    "to the type's precision in the normal range (roundFloat, pinned on float16/32/64 and complex64/128 through the public "
+    "entry; subnormals and overflow to inf are not), the int8 wrap-around is modelled (wrapInt, pinned); keywords of "
+    "xr_reproject that are not warp options (dtype=, axis=) reach only the dask task: known finding "
+    "entry-passthrough-kwarg-differs; a destination chunk of zero area wired to sources is "
     "modelled as the GDAL error it is (emptyTask), zero-length SOURCE chunks are in the model; "
     "_xr_interop._xr_reproject_da's output assembly (attrs, coords, dims, encoding, maybe_int(dst_nodata): only dask == numpy "
     "equality of attrs/dims/dtype is checked here, the content is C09's), output_geobox / _extract_output_geobox_params, "
@@ -1995,6 +2002,66 @@ def extra_axes(R: Run, ns, rng, n):
             R.corr(line, lambda got=got: got, sig=f"nd|ydim={'1' if lead else '0'}|axes={int(bool(lead)) + int(bool(trail))}|{kind}")
 
 
+# ------------------------------------------------------------------ nodata the dtype cannot hold
+UNREP = {"uint8": [-1, -9999, 256, 300, -0.5], "int8": [-129, -200, 128, 200], "int16": [-32769, 70000], "uint16": [-1, 65536],
+         "int32": [2**31, -(2**31) - 1], "float16": [70000.0, -1e6], "float32": [1e40, -1e39]}
+
+
+def gen_unrep(rng, i):
+    dtype = list(UNREP)[i % len(UNREP)]
+    nd = rng.choice(UNREP[dtype])
+    where = ["attr", "src", "dst", "attr+dst-ok", "src+dst-ok"][(i // len(UNREP)) % 5]
+    case = gen_case(rng, small=True)
+    if i % 2 == 0:
+        # disjoint rasters: every destination chunk is a constant block
+        a, b, c, d, e, f = case["A"]
+        case = _w(case["sh"], case["sw"], case["dh"], case["dw"], (a, b, c + 1000, d, e, f), case["sy"], case["sx"], case["cy"], case["cx"])
+    base = [[rng.choice([0, 1, 2, 3, 4]) for _ in range(case["sw"])] for _ in range(case["sh"])]
+    return {"kind": "unrep", "case": case_json(case), "dtype": dtype, "nd": nd, "where": where, "base": base,
+            "sched": rng.choice(SCHEDS), "sseed": rng.randrange(10**6)}
+
+
+def unrep_one(R: Run, ns, cj):
+    """a nodata value that the raster's dtype cannot represent (out of the integer range, beyond the largest float):
+    numpy-backed and dask-backed calls either both refuse, or both answer with the same pixels — overlapping or disjoint"""
+    case, dtype, nd, where = case_from_json(cj["case"]), cj["dtype"], cj["nd"], cj["where"]
+    data = np.asarray(cj["base"]).astype(dtype)
+    attr = nd if where.startswith("attr") else None
+    kw = {"src_nodata": nd} if where.startswith("src") else {}
+    dn = nd if where == "dst" else (0 if where.endswith("dst-ok") else None)
+    sg, dg, _ = geoboxes(ns, case)
+    sig = f"unrep|{dtype}|{where}|" + ("disjoint" if unreached_exact(case).all() else "overlap")
+    res, errs = {}, {}
+    for path in ("whole", "chunked"):
+        try:
+            if path == "whole":
+                res[path] = ns.xr_reproject(ns.wrap_xr(data, sg, nodata=attr), dg, dst_nodata=dn, **kw).values
+            else:
+                lz = ns.xr_reproject(ns.wrap_xr(ns.da.from_array(data, chunks=(case["sy"], case["sx"])), sg, nodata=attr), dg,
+                                     dst_nodata=dn, chunks=(case["cy"], case["cx"]), **kw)
+                res[path] = compute(ns, lz.data, cj["sched"], cj["sseed"])
+        except Exception as e:  # pylint: disable=broad-except
+            errs[path] = f"{type(e).__name__}: {str(e)[:100]}"
+    if len(errs) == 2:
+        R.oracle(True, "unrepresentable-nodata-one-path-refuses", cj, "", sig=sig + "|both-refuse")
+        return True
+    if errs:
+        got = {k: (f"answers, fill {np.unique(v).tolist()[:4]}") for k, v in res.items()}
+        R.oracle(False, "unrepresentable-nodata-one-path-refuses", cj,
+                 f"{dtype} raster, nodata {nd!r} ({where}), destination {'disjoint from' if unreached_exact(case).all() else 'overlapping'} "
+                 f"the source: {errs} but {got}", sig=sig)
+        return False
+    ok = same(res["whole"], res["chunked"])
+    R.oracle(ok, "chunked-differs-from-whole", cj, f"{dtype}, nodata {nd!r} ({where}): both answer, with different pixels" if not ok else "",
+             sig=sig + "|both-answer")
+    return ok
+
+
+def unrepresentable_nodata(R: Run, ns, rng, n):
+    for i in range(n):
+        unrep_one(R, ns, gen_unrep(rng, i))
+
+
 # ------------------------------------------------------------------ every dtype x the nodata option matrix, public entry
 ALL_DTYPES = ["bool", "int8", "uint8", "int16", "uint16", "int32", "uint32", "int64", "uint64", "float16", "float32", "float64",
               "complex64", "complex128"]
@@ -2236,7 +2303,7 @@ def glue_small(R: Run, ns, rng):
 
                 R.corr(f"c13 masks {raw_s(q)} {p}", f_mask, sig="masks|" + ("frac" if is_fractional(dtype, q) else "int"))
     # the chunks= argument through the public entry point
-    for i in range(R.pick(120, 900)):
+    for i in range(R.pick(60, 900)):
         sh, sw, dh, dw = (rng.randint(1, 6) for _ in range(4))
         sy, sx = compositions(rng, sh), compositions(rng, sw)
         arg = gen_chunk_arg(rng, dh, dw, sy, sx, bad=0.35)
@@ -2252,7 +2319,7 @@ def glue_small(R: Run, ns, rng):
         form = "none" if arg is None else ("var" if isinstance(arg[0], tuple) else "pair")
         corr_skip(R, f"c13 chunks {dh} {dw} {list_s(sy)} {list_s(sx)} {chunk_arg_s(arg)}", guard_bad(arg, dh, dw, f_chunks), sig=f"chunks|{form}")
     # what _dask_rio_reproject declares: shape / chunks / numblocks with the spatial axes at ydim
-    for i in range(R.pick(60, 400)):
+    for i in range(R.pick(30, 400)):
         ydim, ntrail = rng.randint(0, 2), rng.randint(0, 1)
         sh, sw, dh, dw = (rng.randint(1, 5) for _ in range(4))
         axes = [axis_chunks(rng, rng.randint(1, 3)) for _ in range(ydim)] + [compositions(rng, sh), compositions(rng, sw)] + [
@@ -2404,6 +2471,63 @@ def glue_xr_entry(R: Run, ns, rng, n, dts):
                      f"numpy-backed {out['attrs_n']} {out['dims_n']} {out['dtype_n']}" if not okm else "", sig="xr-entry|metadata", trivial=True)
 
 
+def glue_unrep_pins(R: Run, ns, rng):
+    """conversion of the caller's nodata through the PUBLIC entry point, pixel of a chunk without sources (dask) and of the
+    in-memory result, on 1x1 disjoint rasters: integer types incl. the int8 -> int16 -> int8 detour and values the type cannot
+    hold (both back-ends must refuse alike: fix3-C13), float / complex types (round to nearest even to the type's precision)"""
+    sg1 = ns.GeoBox((1, 1), ns.Affine(1, 0, 0, 0, -1, 1), CRS)
+    dg1 = ns.GeoBox((1, 1), ns.Affine(1, 0, 100, 0, -1, 1), CRS)
+
+    def real(path, dtype, attr, kw_sn, dn):
+        data = np.ones((1, 1), dtype=dtype)
+        x = ns.wrap_xr(data if path == "whole" else ns.da.from_array(data, chunks=(1, 1)), sg1, nodata=attr)
+        r = ns.xr_reproject(x, dg1, dst_nodata=dn, **({} if kw_sn is None else {"src_nodata": kw_sn}))
+        return (r.values if path == "whole" else r.data.compute(scheduler="synchronous"))[0, 0]
+
+    for dtype, (lo, hi) in INT_RANGES.items():
+        wlo, whi = (-32768, 32767) if dtype == "int8" else (lo, hi)
+        vals = [0, 3, 2.5, lo, hi, lo - 1, hi + 1, lo - 0.4, hi + 0.4, -200, 200, 70000, float("nan"), -0.5]
+        picks = vals if not R.quick else rng.sample(vals, 6) + [lo - 1, hi + 1]
+        for v in picks:
+            attr, kw_sn, dn = rng.choice([(v, None, None), (None, v, None), (None, None, v), (v, None, 0), (3, v, None), (3, None, v)])
+            for path in ("dask", "whole"):
+                R.corr(f"c13 xrfill {path} T {lo} {hi} {wlo} {whi} {raw_s(attr)} {raw_s(kw_sn)} {raw_s(dn)}",
+                       lambda path=path, dtype=dtype, attr=attr, kw_sn=kw_sn, dn=dn: str(int(real(path, dtype, attr, kw_sn, dn))),
+                       sig=f"xrfill|{path}|{dtype}|" + ("out" if not (isinstance(v, float) and math.isnan(v)) and not lo <= v <= hi else "in"))
+    for dtype, prec in (("float16", 11), ("float32", 24), ("float64", 53), ("complex64", 24), ("complex128", 53)):
+        vals = [0.1, 1 / 3, 2.5, -0.1, 3, 1e-3, 1000.1, float("nan")] + ([16777217, 1e10 + 1] if prec >= 24 else [2049, 65504])
+        for v in (vals if not R.quick else rng.sample(vals, 4)):
+            for path in ("dask", "whole"):
+                def f(path=path, dtype=dtype, v=v):
+                    out = complex(real(path, dtype, v, None, None)).real
+                    return "n" if math.isnan(out) else frac_s(F(out))
+
+                R.corr(f"c13 fillfloat {prec} {raw_s(v)}", f, sig=f"fillfloat|{path}|{dtype}")
+
+
+def passthrough_kwargs(R: Run, ns, rng):
+    """keywords of xr_reproject that are not warp options: both back-ends must treat them alike (known finding: `dtype=` and
+    `axis=` are consumed by the dask task only)"""
+    sg = ns.GeoBox((4, 6), ns.Affine(1, 0, 0, 0, -1, 4), CRS)
+    dg = ns.GeoBox((5, 7), ns.Affine(1, 0, -1, 0, -1, 5), CRS)
+    data = (np.arange(24).reshape(4, 6) % 5 + 1).astype("int16")
+    for kw in ({"dtype": "float32"}, {"axis": 1}, {"casting": "unsafe"}, {"num_threads": 2}, {"name": "abc"}):
+        out = {}
+        for path in ("whole", "chunked"):
+            try:
+                x = ns.wrap_xr(data if path == "whole" else ns.da.from_array(data, chunks=((1, 3), (2, 4))), sg, nodata=-1)
+                r = ns.xr_reproject(x, dg, **kw)
+                v = r.values if path == "whole" else r.data.compute(scheduler="synchronous")
+                out[path] = (str(v.dtype), str(r.dtype), v.tolist())
+            except Exception as e:  # pylint: disable=broad-except
+                out[path] = f"{type(e).__name__}"
+        ok = out["whole"] == out["chunked"] or (isinstance(out["whole"], str) and isinstance(out["chunked"], str))
+        R.oracle(ok, "entry-passthrough-kwarg-differs", {"kind": "passthrough", "kw": {k: str(v) for k, v in kw.items()}},
+                 f"xr_reproject(..., **{kw}): numpy-backed -> {out['whole'] if isinstance(out['whole'], str) else out['whole'][:2]}, "
+                 f"dask-backed -> {out['chunked'] if isinstance(out['chunked'], str) else out['chunked'][:2]} (computed dtype, declared dtype)"
+                 if not ok else "", sig="passthrough|" + next(iter(kw)))
+
+
 def fractional_nodata(R: Run, ns, rng, n):
     """integer rasters with a nodata value the dtype cannot hold (2.5, -0.5, 3.75 ...): the constant blocks of
     `_dask_rio_reproject` (resolve_fill_value), the task chunks and the in-memory path must agree on the integer they
@@ -2472,16 +2596,16 @@ def run(R: Run):
         mark('spec+small')
         # 2. exact stream through the whole pipeline (model == real chunked, model == real in-memory)
         dts = list(DTYPES)
-        for i in range(R.pick(400, 3000)):
+        for i in range(R.pick(320, 3000)):
             rotated = i % 5 == 4
             case = gen_case(rng, rotated=rotated)
             corr_lowlevel(R, ns, rng, case, dts[i % len(dts)], rotated=rotated, inject=False)
-        for i in range(R.pick(240, 1500)):
+        for i in range(R.pick(200, 1500)):
             rotated = i % 4 == 3
             case = gen_case(rng, rotated=rotated, small=True)
             corr_lowlevel(R, ns, rng, case, dts[i % len(dts)], rotated=rotated, inject=True)
-        # (the public entry point is also driven by glue_xr_entry with every argument form: 300 + 160 quick cases)
-        for i in range(R.pick(300, 3000)):
+        # (the public entry point is also driven by glue_xr_entry with every argument form)
+        for i in range(R.pick(240, 3000)):
             case = gen_case(rng, rotated=(i % 6 == 5))
             corr_xr(R, ns, rng, case, dts[i % len(dts)])
 
@@ -2500,26 +2624,30 @@ def run(R: Run):
             oracle_pair(R, ns, case, dtype, data, None, None, "sync", 0, tag="edge0")
 
         mark('edge0')
-        fractional_nodata(R, ns, rng, R.pick(40, 400))
+        fractional_nodata(R, ns, rng, R.pick(24, 400))
         mark('fractional_nodata')
         glue_small(R, ns, rng)
         glue_kw(R, ns, rng)
-        glue_xr_entry(R, ns, rng, R.pick(160, 1600), dts)
+        glue_unrep_pins(R, ns, rng)
+        passthrough_kwargs(R, ns, rng)
+        glue_xr_entry(R, ns, rng, R.pick(64, 1600), dts)  # quick: every dtype kind x chunks= form x nodata option a few times
         mark('glue')
-        dtype_matrix(R, ns, rng, R.pick(2 * len(ALL_DTYPES) * len(ND_MODES), 12 * len(ALL_DTYPES) * len(ND_MODES)))
+        # quick: each (dtype, nodata mode) pair exactly once; thorough: 14 times each with other grids / scalar forms
+        dtype_matrix(R, ns, rng, R.pick(len(ALL_DTYPES) * len(ND_MODES), 14 * len(ALL_DTYPES) * len(ND_MODES)))
+        unrepresentable_nodata(R, ns, rng, R.pick(35, 700))
         mark('dtype_matrix')
         # 3. leading time axis, cross CRS, other resampling (oracle only)
-        extra_axes(R, ns, rng, R.pick(120, 1200))
+        extra_axes(R, ns, rng, R.pick(100, 1200))
         mark('extra_axes')
         joint_compute(R, ns, rng, R.pick(70, 600), dts)
         mark('joint_compute')
         histories_finish(R, ns, hist)
         mark('histories')
-        cross_crs(R, ns, rng, R.pick(120, 1500))
+        cross_crs(R, ns, rng, R.pick(100, 1500))
         mark('cross_crs')
-        zoom_stream(R, ns, rng, R.pick(90, 900))
+        zoom_stream(R, ns, rng, R.pick(72, 900))
         mark('zoom_stream')
-        identity_corner(R, ns, rng, R.pick(100, 1200), dts)
+        identity_corner(R, ns, rng, R.pick(80, 1200), dts)
         mark('identity_corner')
         resampling_stream(R, ns, rng, R.pick(60, 600), dts)
         mark('resampling')
@@ -2575,6 +2703,16 @@ def replay(R: Run, rec) -> int:
         return 1 if R.oracle_failures else 0
     if cj.get("kind") == "scale-snap":
         scale_snap_probe(R, ns)
+        for f in R.oracle_failures:
+            print("FAIL:", f["key"], f["what"])
+        return 1 if R.oracle_failures else 0
+    if cj.get("kind") == "passthrough":
+        passthrough_kwargs(R, ns, random.Random(0))
+        for f in R.oracle_failures:
+            print("FAIL:", f["key"], f["what"])
+        return 1 if R.oracle_failures else 0
+    if cj.get("kind") == "unrep":
+        unrep_one(R, ns, cj)
         for f in R.oracle_failures:
             print("FAIL:", f["key"], f["what"])
         return 1 if R.oracle_failures else 0
